@@ -32,7 +32,8 @@ FAMS = ["single:conv@8", "single:dw@8", "single:maxpool@8", "single:avgpool@8", 
         "single:concat_hw@8", "single:pad_conv@8", "single:fc_batch@8", "single:tconv_var", "single:resize_x@8", "single:ew_rank@8",
         "single:conv_big_kernel@8", "single:pool_then_ew@8",
         "single:splitv@8", "single:slice_op@8", "single:unpack_pack@8", "single:sqdiff@8", "single:quant_chain", "single:softmax@8", "single:softmax@8", "single:argmax@8",
-        "single:mean_big@8", "single:pad_pool@8", "single:pad_pool@8", "single:slice_masks@8", "single:dw_mult@8", "single:conv_1d@8", "ew_chain", "concat_split"]
+        "single:mean_big@8", "single:pad_pool@8", "single:pad_pool@8", "single:slice_masks@8", "single:dw_mult@8", "single:conv_1d@8", "ew_chain", "concat_split",
+        "single:exp@8", "single:rsqrt@8", "rewrite_patterns", "rewrite_patterns"]
 if os.environ.get("VERIF_C01_FAMS"):        # development aid: restrict the generated part to some families
     FAMS = os.environ["VERIF_C01_FAMS"].split(",")
 
@@ -205,6 +206,8 @@ class Mixed:
         if off < 0:
             raise refnet.Unsupported("tensor without arena offset (put %d %s)" % (ti, self.sg["tensors"][ti]["name"]))
         k = off
+        if self.sg["tensors"][ti]["type"] == "float32" and np.asarray(arr).dtype.kind == "f":
+            arr = np.asarray(arr, dtype=np.float32).view(np.uint32)      # real float values travel as their bit patterns
         for v in np.asarray(arr, dtype=np.int64).reshape(-1):
             u = int(v) % (1 << (8 * es))
             for b in range(es):
@@ -220,7 +223,10 @@ class Mixed:
         for k in range(off, off + nb, es):
             u = sum(arena[k + b] << (8 * b) for b in range(es))
             vals.append(u - (1 << (8 * es)) if signed and u >= (1 << (8 * es - 1)) else u)
-        return np.array(vals, dtype=np.int64).reshape(self.sg["tensors"][ti]["shape"])
+        res = np.array(vals, dtype=np.int64).reshape(self.sg["tensors"][ti]["shape"])
+        if ti in getattr(self, "real", ()):
+            res = (res % (1 << 32)).astype(np.uint32).view(np.float32)
+        return res
 
     def __call__(self):
         try:
@@ -239,6 +245,7 @@ class Mixed:
             if off >= 0 and not t["data_len"]:
                 size = max(size, off + self.nbytes(ti)[0])
         arena = [0] * size
+        self.real = set()                 # float32 tensors that hold real values (float island), not stand-in codes
         for ti, arr in self.inputs.items():
             if self.alloc["offsets"][ti] < 0 and not any(ti in op["inputs"] for op in self.sg["operators"]):
                 continue                      # a network input that nothing reads has no place in the arena
@@ -262,6 +269,8 @@ class Mixed:
                         val[ti] = self.get(arena, ti)
                 oref.step(op, val)
                 for ti in op["outputs"]:
+                    if np.asarray(val[ti]).dtype.kind == "f":
+                        self.real.add(ti)
                     self.put(arena, ti, val[ti])
         out = [1]
         for ti in self.outs_idx:
@@ -312,7 +321,7 @@ def run(tier):
     res = vlib.Result("C01", tier, "other")
     b = vlib.build_property("C01")
     okx, xlog = vlib.build_extraction("npuExec")
-    n = 380 if tier == "quick" else 2900
+    n = 400 if tier == "quick" else 2900
     max_macs = 1200000 if tier == "quick" else 30000000
     rng = random.Random("c01/%d" % vlib.seed())
     jobs = compiles.corpus_jobs(capture=False) + compiles.plan(FAMS, n, vlib.seed(), tag="c01", capture=False)
